@@ -36,6 +36,16 @@ func runC10(p *Prog, r *Result) {
 	r.Rule("R10f", "parser bookkeeping slices (pending here-documents, stop words, …) are not truncated in place while a local saved from them is still read: a clobbered pending list turns into a spurious `unclosed here-document`", 3)
 	r.Rule("R10g", "rune-level code that leaves on the end-of-input sentinel stores p.tok (or calls something that always does) before it returns, so the error that follows is computed with tok == _EOF", 15)
 	checkEOFExitsSetToken(p, r, pkg, "R10g", c10EOFExceptions)
+	r.Rule("R10i", "every store of the newline token is followed on every path by doHeredocs or the failed pending test: here-document bodies are read inside the statement that opened them, which is what makes a cut inside a body incomplete", 2)
+	checkNewlineTokenReadsHeredocs(p, r, pkg, "R10i")
+	r.Rule("R10j", "after every postNested the lexer is advanced (or the token in hand is known not to be a newline) before the function returns: the token that follows a nested construct is read in the restored state, where a newline reads the pending here-documents", 12)
+	checkRestoreBeforeNextToken(p, r, pkg, "R10j")
+	r.Rule("R10k", "every parser-side call of doHeredocs happens inside an open-node window (openNodes > 0), so an unclosed here-document at the end of the input is an incomplete error", 4)
+	checkHeredocsReadInsideWindow(p, r, pkg, "R10k")
+	r.Rule("R10m", "the position put into a ParseError has been tested not to be the recovered position, or replaced, on every path", 1)
+	checkErrorPosSanitised(p, r, pkg, "R10m")
+	r.Rule("R10n", "every single-byte index into the read buffer is reached only through a bounds test against len(p.bs) or a refill that produced bytes", 5)
+	checkReadBufferIndexGuarded(p, r, pkg, "R10n")
 	r.Rule("R10d", "fill() advances the offset base exactly once per call (the update is not on a cycle)", 1)
 
 	g := buildRefGraph(p)
@@ -264,6 +274,18 @@ func checkCountersRule(p *Prog, r *Result, pkg interface{ }, rule string) {
 var c10Controls = []Control{
 	{Name: "yielded-slice-truncated-in-place", Rule: "R10f", WantKey: "InteractiveSeq#w.accumulated truncated", File: "syntax/parser.go",
 		Mutate: ctlReplaceAnywhere("\t\t\t\tw.accumulated = nil\n", "\t\t\t\tw.accumulated = w.accumulated[:0]\n")},
+	{Name: "newline-token-skips-pending-heredocs", Rule: "R10i", WantKey: "next#p.tok = _Newl", File: "syntax/lexer.go",
+		Mutate: ctlReplaceAnywhere("if p.quote != hdocWord && len(p.heredocs) > p.buriedHdocs {", "if p.quote != hdocWord && p.quote != arrayElems && len(p.heredocs) > p.buriedHdocs {")},
+	{Name: "test-clause-closer-read-before-restore", Rule: "R10j", WantKey: "testClause#postNested", File: "syntax/parser.go",
+		Mutate: ctlReplaceAnywhere("\tp.postNested(old)\n\tif _, ok := p.gotRsrv(\"]]\"); !ok {\n\t\tp.matchingErr(tc.Left, dblLeftBrack, dblRightBrack)\n\t}\n", "\tif _, ok := p.gotRsrv(\"]]\"); !ok {\n\t\tp.matchingErr(tc.Left, dblLeftBrack, dblRightBrack)\n\t}\n\tp.postNested(old)\n")},
+	{Name: "let-clause-newline-skips-heredocs", Rule: "R10j", WantKey: "letClause#postNested", File: "syntax/parser.go",
+		Mutate: ctlReplaceAnywhere("\tif p.tok == _Newl {\n\t\t// The newline ending the clause was read in the nested state,\n\t\t// which holds off any heredocs which were pending before \"let\".\n\t\tp.doHeredocs()\n\t}\n", "")},
+	{Name: "trailing-heredocs-read-outside-window", Rule: "R10k", WantKey: "Parse#doHeredocs inside an open-node window", File: "syntax/parser.go",
+		Mutate: ctlReplaceAnywhere("\t\tp.openNodes++\n\t\tp.doHeredocs()\n\t\tp.openNodes--\n\t}\n\treturn p.f, p.err\n", "\t\tp.doHeredocs()\n\t}\n\treturn p.f, p.err\n")},
+	{Name: "error-at-recovered-position", Rule: "R10m", WantKey: "posErr#ParseError.Pos is not a recovered position", File: "syntax/parser.go",
+		Mutate: ctlReplaceAnywhere("\tif pos.IsRecovered() {\n\t\t// The token this error is about", "\tif pos.IsRecovered() && p.recoverErrorsMax == 0 {\n\t\t// The token this error is about")},
+	{Name: "peek-without-bounds-test", Rule: "R10n", WantKey: "advanceLitHdoc#p.bs[p.bsp] is inside the buffer", File: "syntax/lexer.go",
+		Mutate: ctlReplaceAnywhere("for p.quote == hdocBodyTabs && p.peek() == '\\t' {", "for p.quote == hdocBodyTabs && p.bs[p.bsp] == '\\t' {")},
 	{Name: "quoted-heredoc-eof-keeps-old-token", Rule: "R10g", WantKey: "quotedHdocWord#end-of-input exit", File: "syntax/lexer.go",
 		Mutate: ctlReplaceAnywhere("\t\t\tp.tok = _EOF\n\t\t\treturn nil\n\t\t}\n\t\tfor p.quote == hdocBodyTabs && r == '\\t' {", "\t\t\treturn nil\n\t\t}\n\t\tfor p.quote == hdocBodyTabs && r == '\\t' {")},
 	{Name: "parameter-name-eof-keeps-old-token", Rule: "R10g", WantKey: "paramExpParameter#end-of-input exit", File: "syntax/parser.go",
